@@ -9,6 +9,7 @@
   keywords, contents and list-length distributions.
   PiPack: one entry per block, all alike (`PiPack.shape`), so equal block counts give identically shaped indexes
   (`PiPack.shape_indistinguishable`).
+  CT14: the whole index shape is `CT14.shapeFor cfg ⌈log2 N⌉` (`CT14.shape`).
   ANSS16: the whole index shape is `shapeFor cfg ⌈log2 N⌉` (`ANSS16.shape`): number of tables, entries per table and all
   lengths; the level-table bound that makes the padding sufficient (at most 2^(t+1-j) lists at level j) is part of it.
   The other schemes' shape claims are decided by the correspondence (padding cells included) and the direct oracle on
@@ -17,6 +18,7 @@
 import SSEPyVerif.Proofs.Schemes.ChainShape
 import SSEPyVerif.Proofs.Schemes.ChainCfg
 import SSEPyVerif.Proofs.Schemes.ANSS16Shape
+import SSEPyVerif.Proofs.Schemes.CT14Shape
 namespace SSEPy.C05
 open SSEPy.Sch SSEPy.Sch.Chain
 
@@ -211,5 +213,52 @@ theorem ANSS16.shape_indistinguishable (cfg : ANSSCfg) (lv : Leaves) (hl : LeafL
     (hN : clog2 db.total = clog2 db'.total) :
     (shapeOf edb.HTS, edb.HTL.map shapeOf) = (shapeOf edb'.HTS, edb'.HTL.map shapeOf) := by
   rw [ANSS16.shape cfg lv hl K db t t1 edb hs hids hfresh hnd, ANSS16.shape cfg lv hl K' db' u u1 edb' hs' hids' hfresh' hnd', hN]
+
+/-- what a CT14 index looks like for `t = ⌈log2 N⌉`: `t+1` level tables, level `j` with `2^(t-j)` entries of
+    (`l`, `2^j · c`) bytes, `c` the ciphertext length of one identifier -/
+def CT14.shapeFor (cfg : CT14Cfg) (t : Nat) : List (List (Nat × Nat)) :=
+  (List.range (t + 1)).map fun j => List.replicate (2 ^ (t - j)) (cfg.l.toNat, 2 ^ j * CT14.clen cfg)
+
+/-- CT14 (schemes/CT14/Pi): THE INDEX SHAPE IS A FUNCTION OF `⌈log2 N⌉` ONLY — number of level tables, entries per table
+    and the lengths of all labels and values; keywords, contents and the distribution of list lengths do not show.  No
+    level ever holds more chunks than the `2^(t-j)` it is padded to: the greedy decomposition puts at most one chunk of
+    `2^j ≤ |DB(w)|` identifiers of a keyword on level `j`, and there are `2^t` identifiers in all after padding.
+    Hypotheses as for `ANSS16.shape`. -/
+theorem CT14.shape (raw : RawCfg) (cfg : CT14Cfg) (hcfg : CT14.cfgBuild raw = .ok cfg) (lv : Leaves) (hl : LeafLaws lv)
+    (K : Bytes) (db : DB) (t t' : Tape) (HT : List Table) (hs : CT14.setup cfg lv K db t = .ok (HT, t'))
+    (hids : ∀ p ∈ db, ∀ x ∈ p.2, x.length = cfg.idSize.toNat) (hfresh : (db.map (·.1) ++ draws32 t).Nodup)
+    (hnd : ∀ TL t1, CT14.setupLists cfg lv K db t = .ok (TL, t1) → ∀ L ∈ TL, (L.map (·.1)).Nodup) :
+    HT.map shapeOf = CT14.shapeFor cfg (clog2 db.total) := by
+  obtain ⟨hlpos, hprf, hhash⟩ := CT14.cfgBuild_prf cfg raw hcfg
+  simp only [CT14.setup, bind, Except.bind] at hs
+  split at hs
+  · cases hs
+  · rename_i r hr
+    obtain ⟨TL, t1⟩ := r
+    simp only [pure, Except.pure] at hs
+    cases hs
+    have n2 := hnd TL _ hr
+    obtain ⟨s1, s2⟩ := CT14.setupLists_shape cfg lv hl.enc_len hl.hmac_len hlpos hprf hhash K db t TL _ hr hids hfresh
+    unfold CT14.shapeFor
+    apply List.ext_getElem
+    · simp [s1]
+    · intro j h1 h2
+      simp only [List.length_map] at h1
+      have hj : TL[j]? = some TL[j] := List.getElem?_eq_getElem h1
+      obtain ⟨a, b⟩ := s2 j TL[j] hj
+      simp only [List.getElem_map, List.getElem_range]
+      exact shape_replicate TL[j] _ (buildTable_perm _ (n2 _ (List.getElem_mem h1))) _ _ _ a b
+
+/-- two databases with the same `⌈log2 N⌉` give identically shaped CT14 indexes -/
+theorem CT14.shape_indistinguishable (raw : RawCfg) (cfg : CT14Cfg) (hcfg : CT14.cfgBuild raw = .ok cfg) (lv : Leaves)
+    (hl : LeafLaws lv) (K K' : Bytes) (db db' : DB) (t t1 u u1 : Tape) (HT HT' : List Table)
+    (hs : CT14.setup cfg lv K db t = .ok (HT, t1)) (hs' : CT14.setup cfg lv K' db' u = .ok (HT', u1))
+    (hids : ∀ p ∈ db, ∀ x ∈ p.2, x.length = cfg.idSize.toNat) (hids' : ∀ p ∈ db', ∀ x ∈ p.2, x.length = cfg.idSize.toNat)
+    (hfresh : (db.map (·.1) ++ draws32 t).Nodup) (hfresh' : (db'.map (·.1) ++ draws32 u).Nodup)
+    (hnd : ∀ TL t1, CT14.setupLists cfg lv K db t = .ok (TL, t1) → ∀ L ∈ TL, (L.map (·.1)).Nodup)
+    (hnd' : ∀ TL t1, CT14.setupLists cfg lv K' db' u = .ok (TL, t1) → ∀ L ∈ TL, (L.map (·.1)).Nodup)
+    (hN : clog2 db.total = clog2 db'.total) : HT.map shapeOf = HT'.map shapeOf := by
+  rw [CT14.shape raw cfg hcfg lv hl K db t t1 HT hs hids hfresh hnd,
+    CT14.shape raw cfg hcfg lv hl K' db' u u1 HT' hs' hids' hfresh' hnd', hN]
 
 end SSEPy.C05
